@@ -177,3 +177,16 @@ Definition arpa_dicts (secs : list (list aentry)) : list dict :=
   map (fun n => map (entry_value N n) (nth_sec secs n)) (seq 1 N).
 
 Definition nonblank (l : aline) : bool := match l with LBlank => false | _ => true end.
+
+(* ---------- example data used by the non-vacuity Examples of Properties.v ------------------------ *)
+
+Definition ex_tab : tab :=
+  [([0], (Fin (-8), Fin (-4))); ([1], (Fin (-16), Fin (-2)));
+   ([0; 1], (Fin (-4), Fin (-1))); ([1; 1], (Fin (-6), Fin 0));
+   ([2; 0; 1], (Fin (-2), Fin 0)); ([0; 1; 1], (Fin (-12), Fin 0)); ([1; 2; 0], (Fin (-24), Fin 0))].
+Definition ex_sh : shape := mkShape 3 5 3 3 2.
+Definition ex_bufs : bufs :=
+  mkBufs [5; 5; 6; 5; 4; 4; 4; 4; 4] [2; 0; 1; 0; 1; 2; 0]
+         [Fin (-8); Fin (-16); NInf; NInf; NaN; NInf; Fin (-4); Fin (-6); NaN; Fin (-24); Fin (-2); Fin (-12)]
+         [Fin (-4); Fin (-2); Fin 0; Fin 0; NaN; Fin 0; Fin (-1); Fin 0; NaN].
+
